@@ -275,11 +275,37 @@ def coq_string(s):
     return '"' + s.replace('"', '""') + '"'
 
 
-def generate(repo):
+REFERENCE = os.path.join(HERE, "consts_reference.json")
+
+
+def _reference():
+    """The constants of the tree the models were written against (committed; refreshed with
+    `gen_consts.py --write-reference`).  Used ONLY when a declaration can no longer be found in the
+    sources at hand: the run is then reported as a violation of every property whose proofs or
+    harness use that constant (the tie is broken), and the reference value merely keeps the model
+    buildable so that the check can still search for a concrete failing input."""
+    try:
+        import json
+        return json.load(open(REFERENCE))
+    except Exception:
+        return {"probe": [], "lines": {}, "info": {}}
+
+
+def generate(repo, errors=None):
+    """Returns (text of Gen/Consts.v, {name: value}).  With `errors` (a list) translator failures are
+    appended to it as dicts and the reference value is substituted; without it they raise."""
+    ref = _reference()
+    try:
+        probe_vals = run_probe(repo)
+    except RuntimeError as ex:
+        if errors is None or not ref["probe"]:
+            raise
+        errors.append({"name": "*probe*", "file": "gen/consts_probe.cpp", "what": str(ex)[-1500:]})
+        probe_vals = [tuple(x) for x in ref["probe"]]
     out = ["(* GENERATED by gen/gen_consts.py from the current sources under %s -- do not edit. *)" % "/repo",
            "From Coq Require Import NArith List String.", "Import ListNotations.", "Local Open Scope N_scope.", ""]
     info = {}
-    for kind, name, val in run_probe(repo):
+    for kind, name, val in probe_vals:
         if kind == "N":
             out.append("Definition c_%s : N := %s%%N." % (name, val))
             info[name] = int(val)
@@ -291,7 +317,10 @@ def generate(repo):
             out.append("Definition c_%s : list N := [%s]%%N." % (name, "; ".join(items)))
             info[name] = [int(x) for x in items]
     for name, rel, rx, kind in REGEX_SPECS:
-        txt = _read(repo, rel)
+        try:
+            txt = _read(repo, rel)
+        except OSError:
+            txt = ""
         m = re.search(rx, txt)
         if kind == "flag":            # C15: 1 iff the construct is present
             out.append("Definition c_%s : N := %d%%N." % (name, 1 if m else 0))
@@ -302,7 +331,13 @@ def generate(repo):
             info[name] = []
             continue
         if not m:
-            raise RuntimeError("translator: declaration for %s not found in %s (pattern %s)" % (name, rel, rx))
+            msg = "translator: declaration for %s not found in %s (pattern %s)" % (name, rel, rx)
+            if errors is None or name not in ref["lines"]:
+                raise RuntimeError(msg)
+            errors.append({"name": name, "file": rel, "pattern": rx, "what": msg})
+            out.append(ref["lines"][name])
+            info[name] = ref["info"].get(name)
+            continue
         v = m.group(1)
         if kind == "int":
             n = c_int(v)
@@ -339,7 +374,22 @@ def generate(repo):
     return "\n".join(out), info
 
 
+def write_reference(repo):
+    import json
+    txt, info = generate(repo)
+    lines = {}
+    for l in txt.splitlines():
+        m = re.match(r"Definition c_(\S+) :", l)
+        if m:
+            lines[m.group(1)] = l
+    probe = [list(x) for x in run_probe(repo)]
+    json.dump({"probe": probe, "lines": lines, "info": info}, open(REFERENCE, "w"), indent=0, sort_keys=True)
+
+
 if __name__ == "__main__":
+    if len(sys.argv) > 1 and sys.argv[1] == "--write-reference":
+        write_reference(sys.argv[2] if len(sys.argv) > 2 else "/repo")
+        sys.exit(0)
     repo = sys.argv[1] if len(sys.argv) > 1 else "/repo"
     txt, info = generate(repo)
     sys.stdout.write(txt)
